@@ -1,5 +1,7 @@
 import NxProofs.Gating
 import NxModel.Prudp.L1Crypto
+import NxProofs.MacInjective
+import NxProofs.CryptoAgree
 /-!
 # C04 — only correctly signed packets can affect a PRUDP connection
 
@@ -76,6 +78,30 @@ theorem v0_data_signature_def (v0 : V0Cfg) (p : Packet) (sk cs : Bytes) (h : p.t
 theorem v1_signature_def (v0 : V0Cfg) (p : Packet) (sk cs : Bytes) :
     packetSigFn v0 .v1 p sk cs = some (Crypto.hmacMd5 (Crypto.md5 v0.accessKey)
       ((v1EncodeHeader p (v1EncodeOptions p).length).drop 4 ++ sk ++ u32le (L1.sumBytes v0.accessKey) ++ cs ++ v1EncodeOptions p ++ p.payload)) := rfl
+
+/-- **v1: the MAC covers everything the receiver acts on.** The MAC input leaves out the two length fields of the header
+    and joins options and payload without a separator; it is injective on decodable packets all the same (the type is
+    covered and fixes the length of the option block). Two well-formed packets with the same MAC input under the same
+    keys are the same packet up to the signature field — so, HMAC-MD5 being a MAC (assumption), an accepted v1 packet
+    agrees with a genuinely signed one on every field: ports, types, flags, session id, substream id, sequence id,
+    fragment id, negotiation options, connection signature and payload. -/
+theorem v1_mac_covers_everything (accessKey : Bytes) (p q : Packet) (K C : Bytes) (hp : V1WF p) (hq : V1WF q)
+    (h : v1MacInput accessKey p K C = v1MacInput accessKey q K C) : { p with signature := q.signature } = q :=
+  v1MacInput_injective accessKey p q K C hp hq h
+
+/-- the signature the L1 endpoint demands of a v1 packet is HMAC-MD5 of exactly that input -/
+theorem v1_expected_signature_is_mac (v0 : V0Cfg) (p : Packet) (sk cs : Bytes) :
+    packetSigFn v0 .v1 p sk cs = some (Crypto.hmacMd5 (Crypto.md5 v0.accessKey) (v1MacInput v0.accessKey p sk cs)) := by
+  rw [v1_signature_def]
+  simp [v1MacInput, sumBytes_agree]
+
+/-! non-vacuity of `v1_mac_covers_everything`: two distinct well-formed DATA packets (they differ in the fragment id only);
+    their MAC inputs differ, as the theorem demands -/
+example :
+    let p : Packet := { type := 2, flags := 2, version := some 1, sourceType := 10, sourcePort := 15, destType := 10, destPort := 1,
+                        sessionId := 7, packetId := 5, fragmentId := 1, signature := some (List.replicate 16 0), payload := [1, 2, 3] }
+    let q : Packet := { p with fragmentId := 2 }
+    V1WF p ∧ V1WF q ∧ v1MacInput [0x61] p [] [] ≠ v1MacInput [0x61] q [] [] := by decide
 
 /-! non-vacuity: an environment, a state and two packets (one failing, one passing) for which the hypotheses are meaningful -/
 def toyEnv : Env :=
